@@ -112,12 +112,26 @@ def gen_versions(rng):
     # addresses in the upper half of the address space (kernel-style images, MIPS kseg0): values are unsigned
     top = 1 << (cls - 1)
     high_tags = [(12, top | 0x1000), (13, (1 << cls) - 16), (3, top)][:rng.choice([0, 0, 1, 3])]
+    # further tags a linker writes, with the value kinds readelf formats differently (addresses, sizes, counts, flags, enums)
+    pool = [(25, 0x3e00), (27, 16), (26, 0x3e10), (28, 8), (32, 0x3e20), (33, 8), (2, 48), (20, 7 if rng.random() < 0.5 else 17), (23, 0x600),
+            (7, 0x500), (8, 72), (9, 24), (0x6ffffff9, 3), (17, 0x480), (18, 32), (19, 16), (0x6ffffffa, 2), (21, 0), (22, 0), (16, 0), (24, 0),
+            (30, rng.choice([1, 2, 8, 0x1f])), (0x6ffffffb, rng.choice([1, 0x8000001, 0x421])), (15, so[soname]), (29, so[LIBS[0]]),
+            (0x6ffffef5, 0x300), (4, 0x340), (0x6ffffdf5, 86400 * 365 + 3600 * 13 + 61), (36, 0x700), (35, 16), (37, cls // 8)]
+    if machine == 8:
+        pool += [(0x70000001, 1), (0x70000005, rng.choice([2, 0xc00, 0x13])), (0x70000006, 0x400000), (0x7000000a, 5), (0x70000011, 12),
+                 (0x70000012, 3), (0x70000013, 7), (0x70000016, 0x4100), (0x70000035, 0x4200)]
+    if machine == 183:
+        pool += [(0x70000001, 0), (0x70000003, 0), (0x70000005, 0)]
+    # (PPC64 has no dynamic-tag table in the library: DT_PPC64_GLINK/OPT are outside the clone's descriptions)
+    extra_tags = [t for t in pool if rng.random() < 0.35]
+    seen = set()
+    extra_tags = [t for t in extra_tags if not (t[0] in seen or seen.add(t[0]))]
 
     def make(addr):
         """addr: {section name: address} from the first pass (or {} for the first pass)."""
         tags = [(5, addr.get('.dynstr', 0)), (6, addr.get('.dynsym', 0)), (10, len(tab)), (11, symsz), (14, so[soname]),
                 (0x6ffffff0, addr.get('.gnu.version', 0))]
-        tags += high_tags
+        tags += high_tags + extra_tags
         for f in range(nneed):
             tags.insert(0, (1, so[LIBS[f]]))
         if ndef:
